@@ -154,3 +154,5 @@ def r06_5(ctx):
 
 
 RULES = [("R06.1", r06_1), ("R06.2", r06_2), ("R06.3", r06_3), ("R06.4", r06_4), ("R06.5", r06_5)]
+MULTI_CONFIG_RULES = ("R06.1", "R06.2", "R06.3", "R06.4")
+THOROUGH_CONFIGS = ["native-allfeat"]
